@@ -8,12 +8,26 @@ package main
 // number of times, recursion is on a clamped argument.  Run-time failures (division by zero, explicit
 // panic) are generated on purpose, rarely.
 //
-// Constructs on which the unchanged compiler is known to differ from Go (notes/C14.md, known findings
-// and documented restrictions) are not generated: copying a struct value out of a variable, ordering
-// comparison of strings, reading a map key that may be absent, package-level initialisers that depend
-// on later declarations, closures, deferred calls with non-constant arguments or inside loops, named
-// results together with recover, aliasing a slice and appending to it afterwards, integer types other
-// than int, goroutines/channels/generics.
+// Not generated, with the reason (details and reproductions: notes/C14.md, corpus/C14/c14.json):
+//   documented restrictions of the dialect   closures, integer types other than int, new(), goroutines, channels,
+//                                            generics, copy() on non-byte slices, sub-slices of non-byte slices
+//   known findings of this check             function values with two or more arguments (F141); a default clause that
+//                                            is not last, fallthrough around it (F142); copying a struct value out of
+//                                            a variable, updating a value receiver (F143); < <= > >= on strings (F144);
+//                                            reading a map key that may be absent (F145); initialisers that depend on
+//                                            later declarations (F146); deferred calls with non-constant arguments or
+//                                            inside loops (F147); a panic under more than one pending defer (F148);
+//                                            named results with recover (F149); function literals and return inside
+//                                            init() (F150, F151); == / switch / map keys on concatenated strings
+//                                            (F152); inlined helpers that assign a parameter in a nested block or get
+//                                            an argument that can fail (F153)
+//   not determined by Go itself              the order between a call with side effects and reads of variables in
+//                                            one expression (such calls are whole right-hand sides), map iteration
+//                                            order (only commutative accumulation), aliasing a slice and appending to
+//                                            it (append only to slices created in the same function)
+//   resource limits of the VM                containers and strings stay small, recursion shallow
+// The environment variable C14_ALLOW (earlydefault, lambda2, structcopy, concat) switches four of the excluded
+// constructs back on, to validate a repair.
 
 import (
 	"fmt"
@@ -1384,7 +1398,26 @@ func (g *c14Gen) function(name string, recv string, params []string, rets []stri
 		g.emitf("return %s", strings.Join(es, ", "))
 	} else {
 		g.stmts(nstmt)
-		if g.retType == "int" {
+		// every parameter takes part in the result
+		for _, sc := range g.scopes[:1] {
+			for _, v := range sc {
+				switch {
+				case v.typ == "int" && v.name != acc.name:
+					g.emitf("%s = (%s*31 + %s) %% %d", acc.name, acc.name, v.name, c14M)
+				case v.typ == "bool":
+					g.emitf("if %s {", v.name)
+					g.emitf("\t%s = (%s + 7) %% %d", acc.name, acc.name, c14M)
+					g.emitf("}")
+				case v.typ == "string" || v.typ == "[]int" || v.typ == "[]byte":
+					g.emitf("%s = (%s*3 + len(%s)) %% %d", acc.name, acc.name, v.name, c14M)
+				}
+			}
+		}
+		if g.retType == "bool" {
+			e := g.genBool(2)
+			g.pop()
+			g.emitf("return (%s) != (%s%%2 == 0)", e, acc.name)
+		} else if g.retType == "int" {
 			e, b := g.genInt(2)
 			e, _ = reduce(fmt.Sprintf("%s + %s", acc.name, g.par(e)), b+c14M)
 			g.pop()
@@ -1514,6 +1547,7 @@ func c14GenUnit(r *rng, pkg string, nEntry int, hist map[string]int) c14Unit {
 	g.function("fh", "", []string{"[]int", "int"}, []string{"int"}, 5, false, false)
 	g.function("fi", "", []string{"int"}, nil, 4, false, false)
 	g.function("fj", "", []string{"int", "string"}, []string{"string"}, 4, false, false)
+	g.function("sum3", "S", []string{"int", "int", "bool"}, []string{"int"}, 2, true, false)
 	g.function("get", "S", []string{"int"}, []string{"int"}, 3, true, false) // value receiver: reads only (see notes: receivers are not copied)
 	g.function("upd", "*S", []string{"int"}, nil, 4, false, false)
 	g.function("calc", "*S", []string{"int", "bool"}, []string{"int"}, 4, false, false)
